@@ -97,7 +97,8 @@ def check_case(spec):
         ek = spec.get("epsilon", "number")
         res.label(f"epsilon given as {ek}", f"terminal_psi={o.get('terminal_psi')!r}")
         eps = 1.0 if ek == "number" else build.make_epsilon(dict(kind=ek, x0=0.0, y0=0.0, radius=1.0, lo=1.0))
-        solver = build.make_solver(dev, opts, disorder_epsilon=eps)
+        # a stationary state needs n_nom steps (plus the warm-up window when adaptive); a run that needs many times more has left it
+        solver = build.make_solver(dev, opts, disorder_epsilon=eps, max_steps=5 * int(n_nom) + 100)
         try:
             sol = solver.solve()
         except RuntimeError as exc:
